@@ -117,11 +117,11 @@ def run(ctx, n=None):
                 'one side only, CHANGELOG, numbered diffs and look-alikes, hidden files), a third rows with durations/deltas at 59/60/61 s, the '
                 'two-digit and int boundaries and 2^40, with and without an end row, a third the general C05 generator; the shell totals are run for '
                 'a sample of the cases; non-trivial = a report with a Size: line or a delta suffix; distinct by content hash')
-    n = n or ctx.budget(330, 20000)
+    n = n or ctx.budget(330, 9000)
     cases = rp_common.load_corpus('C18') + gen_cases(ctx.rng, n)
     res.samples = [{'mode': c['mode'], 'rows': c['rows'][:2], 'rel': (c['rel'] or [])[:3]} for c in cases[:3]]
     res.assumptions = ['durations 0..2^40 and deltas within +-2^40 judged by the oracle (in-flight -1 rows only compared with the model); sizes 0..5.5 GiB']
-    run_cases(ctx, cases, res, with_shell=ctx.budget(0.35, 0.25))
+    run_cases(ctx, cases, res, with_shell=ctx.budget(0.35, 0.08))
     res.traces_validated = res.evaluations
     return res
 
